@@ -199,6 +199,12 @@ struct Emitter {
         OS << ",\"callee\":\"" << jesc(FD->getNameAsString()) << "\"";
         if (FD->getBuiltinID()) OS << ",\"builtin\":1";
       }
+    } else if (const auto *AE = dyn_cast<AtomicExpr>(S)) {
+      // __atomic_* / __c11_atomic_* builtins: first child is the object's address
+      auto op = AE->getOp();
+      bool isLoad = op == AtomicExpr::AO__atomic_load_n || op == AtomicExpr::AO__atomic_load ||
+                    op == AtomicExpr::AO__c11_atomic_load;
+      OS << ",\"atomic\":\"" << (isLoad ? "load" : "rmw") << "\"";
     } else if (const auto *CA = dyn_cast<CastExpr>(S)) {
       OS << ",\"ck\":\"" << CA->getCastKindName() << "\"";
     } else if (const auto *UE = dyn_cast<UnaryExprOrTypeTraitExpr>(S)) {
